@@ -200,7 +200,7 @@ def _process_unit(template, skip_hint_fns):
     res["rewrites"] = u.log
     res["dropped_hints"] = list(getattr(u, "dropped_hints", []))
     res["fn_meta"] = u.fns
-    res["tags_generated"] = sorted({t for l in lines for t in re.findall(r"//\[(C\d\d[^\]]*)\]", l)})
+    res["tags_generated"] = sorted({t for l in lines if "//[" in l for t in re.findall(r"\[(C\d\d[^\]]*)\]", l[l.index("//["):])})
     trusted, bad = scan_trusted(lines)
     res["trusted_base"] = trusted
     if bad:
@@ -401,6 +401,8 @@ def main(argv):
     if a.freeze_baseline:
         results = run_units(templates)
         base = {}
+        if a.units and os.path.exists(BASELINE):
+            base = json.load(open(BASELINE))        # --units: refresh only the named units, keep the others
         for r in results:
             if r["status"] != "ok":
                 print("cannot freeze: unit %s is %s: %s" % (r["unit"], r["status"], r["undecided"]))
